@@ -615,6 +615,7 @@ func (s *simSource) Uint64() uint64 {
 }
 
 // NewRandSource replaces rand.NewSource.
+//
 //go:norace
 func NewRandSource(seed int64) rand.Source {
 	if S == nil {
@@ -633,7 +634,7 @@ func NewRandSource(seed int64) rand.Source {
 		salt = sim.rngSalt
 	})
 	a := Mix(uint64(seed), salt, 0x726e67)
-	src := &simSource{mode: RandCfg.Mode, inner: rand.NewSource(int64(a>>1)).(rand.Source64), script: RandCfg.Script}
+	src := &simSource{mode: RandCfg.Mode, inner: rand.NewSource(int64(a >> 1)).(rand.Source64), script: RandCfg.Script}
 	n := RandCfg.Cycle
 	if n <= 0 {
 		n = 2
